@@ -13,6 +13,7 @@ Inductive pure_whnf : whnf -> Prop :=
 | PW_Str : forall s, pure_whnf (VStr s)
 | PW_Bool : forall b, pure_whnf (VBool b)
 | PW_Tag : forall t, pure_whnf (VTag t)
+| PW_Variant : forall t th, pure_thunk th -> pure_whnf (VVariant t th)
 | PW_Clo : forall x b rho, plain b = true -> Forall (fun xt => pure_thunk (snd xt)) rho ->
            pure_whnf (VClo MUntyped x b rho)
 | PW_Prim : forall o args, Forall pure_thunk args -> pure_whnf (VPrim o args)
@@ -146,8 +147,12 @@ Proof.
     apply in_map_iff in Ht. destruct Ht as [ft0 [<- Hin]]. simpl. unfold wrap.
     constructor; [reflexivity|]. constructor; [|constructor]. simpl.
     rewrite Forall_forall in H0. apply (H0 ft0 Hin).
-  - (* TEnum *)
-    destruct (existsb _ tags); simpl; auto.
+  - (* TEnum, tag *)
+    destruct (erows_lookup t e) as [[T'|]|]; simpl; auto.
+  - (* TEnum, variant *)
+    inversion Hv; subst.
+    destruct (erows_lookup t e) as [[T'|]|]; simpl; auto.
+    constructor. unfold wrap. constructor; [reflexivity|]. constructor; [|constructor]. assumption.
 Qed.
 
 Lemma eval_pure : forall n e rho,
@@ -199,19 +204,26 @@ Proof.
     pose proof (assoc_Forall pure_thunk _ _ _ H0 Ha) as Ht. inversion Ht; subst.
     apply IH; assumption.
   - constructor.
+  - (* Variant *)
+    constructor. constructor; assumption.
   - (* Match *)
     apply andb_true_iff in Hp. destruct Hp as [Hp Hd]. apply andb_true_iff in Hp. destruct Hp as [He Hbs].
     pose proof (IH e rho He Hrho) as H1. destruct (eval n MUntyped rho e) as [v| |]; simpl in *; auto.
     assert (Hdef : pure_out match d with Some b => eval n MUntyped rho b | None => Err (ENonExhaustive MUntyped) end).
     { destruct d; simpl; auto. }
+    assert (Hfb : forall t arg x b, find_branch t arg bs = Some (x, b) -> plain b = true).
+    { intros t0 arg x b Hf. rewrite forallb_forall in Hbs. clear - Hf Hbs.
+      induction bs as [|[[u y] c] bs IHb]; simpl in *; [discriminate|].
+      destruct (String.eqb t0 u && Bool.eqb arg match y with Some _ => true | None => false end).
+      - inversion Hf; subst. apply (Hbs (u, x, b)). left; reflexivity.
+      - apply IHb; auto. }
     destruct v; simpl; auto.
-    destruct (assoc t bs) as [b|] eqn:Ha; simpl; auto.
-    apply IH; [|assumption]. rewrite forallb_forall in Hbs.
-    assert (In (t, b) bs \/ True) as _ by auto.
-    clear - Ha Hbs. induction bs as [|[y c] bs IHb]; simpl in *; [discriminate|].
-    destruct (String.eqb t y).
-    + inversion Ha; subst. apply (Hbs (y, b)). left; reflexivity.
-    + apply IHb; auto.
+    + destruct (find_branch t false bs) as [[x b]|] eqn:Hf; simpl; auto.
+      apply IH; [eapply Hfb; eassumption|assumption].
+    + inversion H1; subst.
+      destruct (find_branch t true bs) as [[[x|] b]|] eqn:Hf; simpl; auto.
+      * apply IH; [eapply Hfb; eassumption|]. constructor; assumption.
+      * apply IH; [eapply Hfb; eassumption|assumption].
   - constructor. constructor.
   - discriminate.
   - discriminate.
